@@ -36,6 +36,8 @@ std::vector<OpWeight> use_table()
    for (int c = 0; c < OP_noise_alloc; ++c) t.push_back({ c, c >= OP_get_string and c < OP_make_phantom ? 4 : 1 });
    t.push_back({ OP_noise_alloc, 12 });
    t.push_back({ OP_noise_free, 8 });
+   t.push_back({ OP_get_string_huge, 3 });
+   for (int c = OP_macro_var; c < OP_COUNT; ++c) t.push_back({ c, 3 });
    return t;
 }
 
